@@ -95,7 +95,7 @@ def exported_component_classes():
 
 
 def run(tier, seed, replay=None):
-    chk = Check("C07", tier, seed)
+    chk = Check("C07", tier, seed, level="other")
     rng = random.Random(seed)
     if replay:
         scenarios = [json.loads(open(replay).read())["replay"]["scenario"]]
@@ -144,6 +144,9 @@ def run(tier, seed, replay=None):
                           f"more than {SPIN_LIMIT} deliveries at instant {sim['max_inst_t']} ns "
                           f"(scenario {s}, simulation {k}): {sp['module']}.{sp['target']} keeps receiving {sp['type']}",
                           {"scenario": s, "simulation": k, "spin": sp, "types": sim.get("max_inst_types")})
+    chk.extra["distinct_nontrivial"] = len({(meta[r["id"]][0], r["n"], r["maxinst"]) for r in recs if r["n"] > 0})
+    chk.extra["rule"] = ("one case = one Simulation executed by a scenario of the corpus; non-trivial = it delivered "
+                         "at least one event; distinct by (scenario, deliveries, max deliveries at one instant)")
     exported = exported_component_classes()
     hit = sorted(c for c in classes if c in exported)
     chk.extra.update({"scenarios_run": len(scenarios), "scenarios_skipped": skipped[:20],
